@@ -1,8 +1,9 @@
 /- Closing-negotiation gate (C09): when may a funded channel release `closing_signed` (the message that lets the peer
    broadcast a transaction paying to OUR shutdown script, which the ChannelMonitor learns through a `ShutdownScript`
    ChannelMonitorUpdate) and when does the closing timer start — in every ChannelState variant, also before channel_ready.
-   Every DECISION is a call into Generated/CloseGate.lean (re-translated from channel.rs on every run); hand-mirrored here is
-   the plumbing (which flag an action sets), tied by the differential ops `cgstep` of driver `closegate`.  No Mathlib. -/
+   Every DECISION and (round 6) every flag / field WRITE is a call into Generated/CloseGate.lean (re-translated from channel.rs on
+   every run); hand-mirrored here is only which Rust function an op stands for and that a completed update restores the channel,
+   tied by the differential ops `cgop` of driver `closegate`.  No Mathlib. -/
 import LdkModel.Generated.CloseGate
 namespace Ldk.CloseGate
 open Ldk.CloseGate.Gen
@@ -62,6 +63,16 @@ inductive Op where
 
 def setMon (c : Chan) (b : Bool) : Chan := { c with f := { c.f with monitorUpdateInProgress := b } }
 
+/-- monitor_updating_paused / monitor_updating_restored on the state word (translated writes) -/
+def paused (c : Chan) : Chan := { c with f := pausedWrites c.v c.f }
+def restored (c : Chan) : Chan := { c with f := restoredWrites c.v c.f }
+
+/-- a ShutdownScript update is generated: the channel is paused (translated: monitor_updating_paused precedes the hand-over in both
+    producers); `ip` = the persister answered InProgress.  It is restored within the same call only when it completed at once and no
+    earlier update was in flight -/
+def shutdownUpdate (c : Chan) (ip : Bool) : Chan :=
+  if c.inProgress || ip then paused c else restored (paused c)
+
 /-- FundedChannel::closing_signed on the current state -/
 def recvStep (c : Chan) (pendingSignature feeTooBig : Bool) : Chan × List Out :=
   match closingSignedGate pendingSignature (isBothSidesShutdown c.v c.f) c.disconnected (c.nIn == 0) (c.nOut == 0) feeTooBig
@@ -70,20 +81,27 @@ def recvStep (c : Chan) (pendingSignature feeTooBig : Bool) : Chan × List Out :
   | 2 => ({ c with parked := true }, [.parked])
   | _ => (c, [.refused])
 
+/-- every flag / field WRITE below is a definition of Generated/CloseGate.lean (translated from get_shutdown, shutdown,
+    monitor_updating_restored, remove_uncommitted_htlcs_and_mark_paused, channel_reestablish) -/
 def step (c : Chan) : Op → Chan × List Out
   | .localShutdown upd ip =>
     -- get_shutdown's refusals (translated): nothing changes, nothing is sent (no HTLC still LocalAnnounced / no script override in the scenarios)
     if getShutdownRefused c.v c.f false false false then (c, [.refused])
     else
-      let c1 := { c with f := { c.f with localShutdownSent := true } }
-      (if upd then setMon c1 (c1.f.monitorUpdateInProgress || ip) else c1, [])
+      let c1 := { c with f := getShutdownWrites c.v c.f }
+      (if upd then shutdownUpdate c1 ip else c1, [])
   | .remoteShutdown upd ip =>
-    let c1 := { c with f := { c.f with remoteShutdownSent := true, localShutdownSent := true } }
-    (if upd then setMon c1 (c1.f.monitorUpdateInProgress || ip) else c1, [])
-  | .monitorDone => (setMon c false, [])
+    -- shutdown's refusals (translated; honest peer: V1 channel, no RemoteAnnounced HTLC, compliant script)
+    if shutdownRefused c.v c.f false false false then (c, [.refused])
+    else
+      let c1 := { c with f := shutdownWrites c.v c.f }
+      (if upd then shutdownUpdate c1 ip else c1, [])
+  | .monitorDone => (restored c, [])
   -- remove_uncommitted_htlcs_and_mark_paused: "we have to start the closing_signed dance over"
-  | .disconnect => ({ c with f := { c.f with peerDisconnected := true }, lastSent := false, parked := false }, [])
-  | .reconnect => ({ c with f := { c.f with peerDisconnected := false } }, [])
+  | .disconnect =>
+    if disconnectNoop c.v c.f then (c, [])
+    else ({ c with f := disconnectWrites c.v c.f, lastSent := disconnectLastSent c.lastSent, parked := disconnectParked c.parked }, [])
+  | .reconnect => ({ c with f := reestablishWrites c.v c.f }, [])
   | .poll =>
     match proposeGate c.lastSent c.ready c.outbound c.expCs c.parked with
     | 1 => ({ c with lastSent := true }, [.closingSigned])
